@@ -23,7 +23,7 @@ def gen(rng, ctx):
     ni = rng.randint(1, 5 if not big else 6)
     ng = rng.randint(1, 8 if not big else 12)
     c0 = G.rand_circuit(rng, ni, ng, max_fanin=4, name="ca", p_const=0.15, n_outputs=rng.randint(1, 3))
-    pk = rng.choice(["copy", "equiv", "equiv", "mutant", "mutant", "overlap", "self"])
+    pk = rng.choice(["copy", "equiv", "equiv", "mutant", "mutant", "overlap", "self", "role_overlap"])
     if pk == "copy":
         c1 = {**c0, "name": "cb"}
     elif pk == "equiv":
@@ -34,6 +34,25 @@ def gen(rng, ctx):
         c1["name"] = "cb"
     elif pk == "overlap":
         c1 = G.rand_circuit(rng, max(1, ni + rng.randint(-1, 1)), rng.randint(1, 8), max_fanin=4, name="cb", n_outputs=rng.randint(1, 3))
+    elif pk == "role_overlap":
+        # the same name is a primary input in one circuit and an internal gate in the other
+        c1 = G.rewrite_equiv(rng, c0, rng.randint(0, 2))
+        c1["name"] = "cb"
+        ins0 = [n for n, t, _ in c0["nodes"] if t == "input"]
+        gates1 = [n for n, t, _ in c1["nodes"] if t in G.ALL_GATES and not any(n == x[0] for x in c0["nodes"])]
+        victim_in = rng.choice(ins0)
+        try:
+            if gates1 and rng.random() < 0.5:
+                # c1: the input keeps another name, a helper gate takes the input's name
+                c1 = G.cd_rename(c1, {victim_in: victim_in + "_alt"})
+                c1 = G.cd_rename(c1, {rng.choice(gates1): victim_in})
+            else:
+                gts = [n for n, t, _ in c1["nodes"] if t in G.GATESN]
+                if gts:
+                    c1 = G.cd_rename(c1, {victim_in: victim_in + "_alt"})
+                    c1 = G.cd_rename(c1, {rng.choice(gts): victim_in})
+        except ValueError:
+            pass
     else:
         c1 = None
     if rng.random() < 0.06:
@@ -153,5 +172,5 @@ def check(case, ctx):
 
 
 def gates(counters, table, tier):
-    need = ["pair:copy", "pair:equiv", "pair:mutant", "pair:overlap", "pair:self", "single_endpoint", "untied_startpoints", "explicit_startpoints", "agree", "differ"]
+    need = ["pair:role_overlap", "pair:copy", "pair:equiv", "pair:mutant", "pair:overlap", "pair:self", "single_endpoint", "untied_startpoints", "explicit_startpoints", "agree", "differ"]
     return [f"{k} seen {counters.get(k, 0)} times" for k in need if counters.get(k, 0) < 10]
